@@ -131,11 +131,48 @@ Definition ctx_lines r : bytes :=
 
 Lemma k_status_shape r :
   k_status r = line (name_line (s_comm r)) ++ klines (s_pre r) ++ line (uid_line r) ++ line (gid_line r)
-               ++ klines (s_mid r) ++ line (thr_line r) ++ klines (s_post r) ++ ctx_lines r ++ klines (s_tail r).
+               ++ klines (mid_all r) ++ line (thr_line r) ++ klines (s_post r) ++ ctx_lines r ++ klines (s_tail r).
 Proof. reflexivity. Qed.
 
+(* the Groups line, however long, is just another line: no newline, not one of the keys,
+   no 'c' in it at all *)
+Lemma occurs_no_head p0 p l : contains p0 l = false -> occurs (p0 :: p) l = false.
+Proof.
+  induction l as [|c l IH]; [reflexivity|]. rewrite contains_cons. intros H.
+  apply orb_false_iff in H as [Hc Hl]. cbn [occurs prefixb]. rewrite Hc. cbn [andb orb]. now apply IH.
+Qed.
+
+Lemma groups_no b gs : is_digit b = false -> b <> 32 -> forallb is_dec gs = true ->
+  contains b (join [32] gs ++ [32]) = false.
+Proof.
+  intros Hb H32 Hg. rewrite contains_app.
+  rewrite contains_join.
+  - cbn [contains existsb]. rewrite orb_false_r. now apply Z.eqb_neq.
+  - cbn [contains existsb]. rewrite orb_false_r. now apply Z.eqb_neq.
+  - clear -Hb Hg. induction gs as [|g gs IH]; [reflexivity|]. cbn [forallb] in *.
+    apply andb_true_iff in Hg as [H1 H2]. rewrite (is_dec_no b g H1 Hb). cbn [negb andb]. now apply IH.
+Qed.
+
+Lemma groups_line_ok gs : forallb is_dec gs = true -> other_ok (groups_line gs) = true.
+Proof.
+  intros H. unfold other_ok, groups_line.
+  assert (N10 : contains 10 (bs "Groups:" ++ 9 :: join [32] gs ++ [32]) = false).
+  { rewrite contains_app. cbn [app]. rewrite contains_cons, (groups_no 10 gs) by (reflexivity || lia || assumption). reflexivity. }
+  assert (N99 : contains 99 (bs "Groups:" ++ 9 :: join [32] gs ++ [32]) = false).
+  { rewrite contains_app. cbn [app]. rewrite contains_cons, (groups_no 99 gs) by (reflexivity || lia || assumption). reflexivity. }
+  rewrite N10. change (bs "ctxt_switches:") with (99 :: bs "txt_switches:"). rewrite (occurs_no_head _ _ _ N99).
+  reflexivity.
+Qed.
+
+Lemma mid_all_ok r :
+  forallb other_ok (s_fd r) = true -> forallb is_dec (s_groups r) = true -> forallb other_ok (s_mid r) = true ->
+  forallb other_ok (mid_all r) = true.
+Proof.
+  intros H1 H2 H3. unfold mid_all. rewrite forallb_app, H1. cbn [forallb andb]. now rewrite groups_line_ok, H3.
+Qed.
+
 Record wf_parts (r : kstatus) : Prop := {
-  w_pre : forallb other_ok (s_pre r) = true; w_mid : forallb other_ok (s_mid r) = true;
+  w_pre : forallb other_ok (s_pre r) = true; w_mid : forallb other_ok (mid_all r) = true;
   w_post : forallb other_ok (s_post r) = true; w_tail : forallb other_ok (s_tail r) = true;
   w_ru : is_dec (s_ruid r) = true; w_eu : is_dec (s_euid r) = true; w_su : is_dec (s_suid r) = true;
   w_fu : is_dec (s_fsuid r) = true;
@@ -148,8 +185,13 @@ Lemma wf_kstatus_parts r : wf_kstatus r = true -> wf_parts r.
 Proof.
   unfold wf_kstatus. intros H.
   repeat (apply andb_true_iff in H as [H ?H0]).
+  match goal with
+  | Hm : forallb other_ok (s_fd r) && forallb is_dec (s_groups r) && forallb other_ok (s_mid r) = true |- _ =>
+    apply andb_true_iff in Hm as [Hm Hmid]; apply andb_true_iff in Hm as [Hfd Hg]
+  end.
   constructor; try assumption.
-  destruct (s_ctx r) as [[v n]|]; [|exact I]. now apply andb_true_iff in H0.
+  - now apply mid_all_ok.
+  - destruct (s_ctx r) as [[v n]|]; [|exact I]. now apply andb_true_iff in H0.
 Qed.
 
 Theorem uids_exact r : wf_kstatus r = true -> uids (k_status r) = Val (spec_uids r).
@@ -385,7 +427,8 @@ Definition ex_kstatus (comm : bytes) : kstatus :=
                bs "TracerPid:" ++ 9 :: bs "0"];
      s_ruid := bs "1000"; s_euid := bs "1001"; s_suid := bs "1002"; s_fsuid := bs "1003";
      s_rgid := bs "100"; s_egid := bs "101"; s_sgid := bs "102"; s_fsgid := bs "103";
-     s_mid := [bs "FDSize:" ++ 9 :: bs "64"; bs "Groups:" ++ 9 :: bs "4 24 27 "; bs "VmPeak:" ++ 9 :: bs "    1000 kB"];
+     s_fd := [bs "FDSize:" ++ 9 :: bs "64"]; s_groups := [bs "4"; bs "24"; bs "27"; bs "65534"];
+     s_mid := [bs "NStgid:" ++ 9 :: bs "4242"; bs "VmPeak:" ++ 9 :: bs "    1000 kB"];
      s_threads := bs "3";
      s_post := [bs "SigQ:" ++ 9 :: bs "0/63432"; bs "Cpus_allowed_list:" ++ 9 :: bs "0-7"];
      s_ctx := Some (bs "18446744073709551615", bs "7");
@@ -404,3 +447,59 @@ Theorem ctx_long_name_refuted :
             /\ spec_ctx r = Val (18446744073709551615, 7)
             /\ num_ctx_switches (k_status r) = Val (9, 18446744073709551615).
 Proof. exists (ex_kstatus (bs "ctxt_switches:" ++ [9; 57])). vm_compute. repeat split; reflexivity. Qed.
+
+(* the status file has no size bound: for every n there is a kernel-formatted record longer than n
+   bytes (n supplementary groups), and the four accessors are exact on it like on any other *)
+Definition big_status (n : nat) : kstatus :=
+  {| s_comm := bs "sshd"; s_pre := s_pre (ex_kstatus []);
+     s_ruid := bs "1000"; s_euid := bs "1001"; s_suid := bs "1002"; s_fsuid := bs "1003";
+     s_rgid := bs "100"; s_egid := bs "101"; s_sgid := bs "102"; s_fsgid := bs "103";
+     s_fd := [bs "FDSize:" ++ 9 :: bs "64"]; s_groups := repeat (bs "65534") n; s_mid := [];
+     s_threads := bs "128"; s_post := []; s_ctx := Some (bs "31337", bs "7"); s_tail := [] |}.
+
+Lemma repeat_dec g n : is_dec g = true -> forallb is_dec (repeat g n) = true.
+Proof. intros H. induction n as [|n IH]; [reflexivity|]. cbn [repeat forallb]. now rewrite H, IH. Qed.
+
+Lemma join_repeat_len n : Nat.le n (length (join [32] (repeat (bs "65534") n) ++ [32])).
+Proof.
+  rewrite app_length. cbn [length].
+  assert (G : Nat.le n (length (join [32] (repeat (bs "65534") n)) + 1)); [|unfold Nat.le in *; lia].
+  induction n as [|n IH]; [cbn; lia|]. cbn [repeat]. destruct n as [|n]; [cbn; lia|].
+  change (repeat (bs "65534") (S n)) with (bs "65534" :: repeat (bs "65534") n) in *.
+  rewrite join_cons2, !app_length. cbn [length bs] in *. lia.
+Qed.
+
+Lemma klines_has a g b : Nat.le (length g) (length (klines (a ++ g :: b))).
+Proof.
+  unfold Nat.le, klines. rewrite map_app, concat_app. cbn [map concat]. unfold line at 2.
+  rewrite !app_length. lia.
+Qed.
+
+Lemma le_app_5 {A} (a b c d m e : list A) : Nat.le (length m) (length (a ++ b ++ c ++ d ++ m ++ e)).
+Proof. unfold Nat.le. rewrite !app_length. lia. Qed.
+
+Lemma groups_in_status r : Nat.le (length (join [32] (s_groups r) ++ [32])) (length (k_status r)).
+Proof.
+  apply (Nat.le_trans _ (length (groups_line (s_groups r)))).
+  { unfold groups_line. rewrite (app_length (bs "Groups:")). cbn [length]. lia. }
+  apply (Nat.le_trans _ (length (klines (mid_all r)))).
+  { apply klines_has. }
+  unfold k_status. apply le_app_5.
+Qed.
+
+Theorem status_unbounded n :
+  wf_kstatus (big_status n) = true /\ Nat.le n (length (k_status (big_status n))) /\
+  uids (k_status (big_status n)) = Val [1000; 1001; 1002] /\
+  gids (k_status (big_status n)) = Val [100; 101; 102] /\
+  num_threads (k_status (big_status n)) = Val 128 /\
+  num_ctx_switches (k_status (big_status n)) = Val (31337, 7).
+Proof.
+  assert (W : wf_kstatus (big_status n) = true).
+  { unfold wf_kstatus, big_status. cbn [s_pre s_fd s_groups s_mid s_post s_tail s_ruid s_euid s_suid s_fsuid
+      s_rgid s_egid s_sgid s_fsgid s_threads s_ctx]. rewrite (repeat_dec (bs "65534") n) by reflexivity. reflexivity. }
+  split; [exact W|]. split.
+  - pose proof (groups_in_status (big_status n)) as G. pose proof (join_repeat_len n) as L.
+    cbn [big_status s_groups] in G. unfold Nat.le in *. lia.
+  - rewrite uids_exact, gids_exact, num_threads_exact, num_ctx_switches_exact by (exact W || reflexivity).
+    repeat split; reflexivity.
+Qed.
